@@ -5,7 +5,9 @@ use super::strings::{
     special_function_misc, special_url,
 };
 use super::unit::unit;
-use super::util::{ignore_comments, opt_spacelike, spacelike2};
+use super::util::{
+    ignore_comments, opt_spacelike, spacelike, spacelike2,
+};
 use super::{
     PResult, Span, input_to_string, list_or_single, position, sass_string,
 };
@@ -15,7 +17,7 @@ use nom::Parser as _;
 use nom::branch::alt;
 use nom::bytes::complete::{tag, tag_no_case};
 use nom::character::complete::{
-    alphanumeric1, char, digit1, multispace0, multispace1, one_of,
+    alphanumeric1, char, digit1, one_of,
 };
 use nom::combinator::{
     cut, into, map, map_opt, map_res, not, opt, peek, recognize, value,
@@ -128,9 +130,9 @@ fn single_expression(input: Span) -> PResult<Value> {
     fold_many0(
         (
             delimited(
-                multispace0,
+                opt_spacelike,
                 value(Operator::Or, tag("or")),
-                multispace1,
+                spacelike,
             ),
             and_expression,
             position,
@@ -149,9 +151,9 @@ fn and_expression(input: Span) -> PResult<Value> {
     fold_many0(
         (
             delimited(
-                multispace0,
+                opt_spacelike,
                 value(Operator::And, tag("and")),
-                multispace1,
+                spacelike,
             ),
             equality_expression,
             position,
@@ -169,7 +171,7 @@ fn equality_expression(input: Span) -> PResult<Value> {
     let (input1, a) = logic_expression(input)?;
     fold_many0(
         (
-            delimited(multispace0, equality_operator, multispace0),
+            delimited(opt_spacelike, equality_operator, opt_spacelike),
             logic_expression,
             position,
         ),
@@ -186,7 +188,7 @@ fn logic_expression(input: Span) -> PResult<Value> {
     let (input1, a) = sum_expression(input)?;
     fold_many0(
         (
-            delimited(multispace0, relational_operator, multispace0),
+            delimited(opt_spacelike, relational_operator, opt_spacelike),
             sum_expression,
             position,
         ),
@@ -399,8 +401,12 @@ pub(crate) fn unicode_range_inner(input: Span) -> PResult<String> {
 
 pub fn bracket_list(input: Span) -> PResult<Value> {
     let (input, content) =
-        delimited(char('['), opt(value_expression), char(']'))
-            .parse(input)?;
+        delimited(
+            terminated(char('['), opt_spacelike),
+            opt(value_expression),
+            char(']'),
+        )
+        .parse(input)?;
     Ok((
         input,
         match content {
